@@ -146,4 +146,45 @@ theorem cli_fraction_zero : fraction (1 - (0 : ℝ)) = 1 := by
 example : min (0.2 : ℝ) 0.9 ≤ interpolate (0.2 : ℝ) 0.9 0.25 ∧ interpolate (0.2 : ℝ) 0.9 0.25 ≤ max (0.2 : ℝ) 0.9 :=
   interpolate_between 0.2 0.9 0.25 (by norm_num) (by norm_num)
 
+
+/-! ### Hue-like coordinates travel along the shorter arc -/
+
+/-- For angles in `[0, 360)` the pair `(p, q)` between which `interpolate_angle` interpolates
+linearly represents the same two angles (each possibly shifted by one turn), and its span
+`|p − q|` is the circular distance `min (|a − b|, 360 − |a − b|) ≤ 180` — for every fraction. -/
+
+theorem interpolateAngle_shorter_arc (a b f : ℝ) (ha0 : 0 ≤ a) (ha : a < 360) (hb0 : 0 ≤ b) (hb : b < 360) :
+    ∃ p q : ℝ, (p = a ∨ p = a + 360) ∧ (q = b ∨ q = b + 360) ∧
+      |p - q| = min |a - b| (360 - |a - b|) ∧ |p - q| ≤ 180 ∧
+      interpolateAngle a b f = modPositive (interpolate p q f) 360 := by
+  unfold interpolateAngle angleDistGreater
+  simp only [decide_eq_true_eq]
+  sc_norm
+  push_cast at *
+  have e1 : |a - (b + 360)| = 360 - (a - b) := by
+    rw [show a - (b + 360) = -(360 - (a - b)) by ring, abs_neg, abs_of_nonneg (by linarith)]
+  have e2 : |a + 360 - b| = 360 + (a - b) := by
+    rw [show a + 360 - b = 360 + (a - b) by ring, abs_of_nonneg (by linarith)]
+  have key : ∀ (p q : ℝ), (p = a ∨ p = a + 360) → (q = b ∨ q = b + 360) →
+      |p - q| = min |a - b| (360 - |a - b|) → |p - q| ≤ 180 →
+      ∃ p' q' : ℝ, (p' = a ∨ p' = a + 360) ∧ (q' = b ∨ q' = b + 360) ∧
+        |p' - q'| = min |a - b| (360 - |a - b|) ∧ |p' - q'| ≤ 180 ∧
+        modPositive (interpolate p q f) 360 = modPositive (interpolate p' q' f) 360 :=
+    fun p q h1 h2 h3 h4 => ⟨p, q, h1, h2, h3, h4, rfl⟩
+  rcases le_total a b with hab | hab
+  · have e0 : |a - b| = b - a := by rw [abs_sub_comm, abs_of_nonneg (by linarith)]
+    split_ifs with h1 h2 h2
+    all_goals simp only [e0, e1, e2] at h1 h2
+    · exfalso; linarith
+    · exfalso; linarith
+    · exact key (a + 360) b (Or.inr rfl) (Or.inl rfl) (by rw [e2, e0, min_eq_right (by linarith)]; ring) (by rw [e2]; linarith)
+    · exact key a b (Or.inl rfl) (Or.inl rfl) (by rw [e0, min_eq_left (by linarith)]) (by rw [e0]; linarith)
+  · have e0 : |a - b| = a - b := abs_of_nonneg (by linarith)
+    split_ifs with h1 h2 h2
+    all_goals simp only [e0, e1, e2] at h1 h2
+    · exfalso; linarith
+    · exact key a (b + 360) (Or.inl rfl) (Or.inr rfl) (by rw [e1, e0, min_eq_right (by linarith)]) (by rw [e1]; linarith)
+    · exfalso; linarith
+    · exact key a b (Or.inl rfl) (Or.inl rfl) (by rw [e0, min_eq_left (by linarith)]) (by rw [e0]; linarith)
+
 end Pastel.C07
